@@ -71,12 +71,11 @@ func (h *history) det(extra map[string]any) map[string]any {
 func (h *history) snapshot() ([]string, []string) {
 	ps := make([]string, len(h.pts))
 	for i, p := range h.pts {
-		b := raw.PointBytes(p)
-		ps[i] = string(b[:])
+		ps[i] = raw.PointSnap(p)
 	}
 	ss := make([]string, len(h.scs))
 	for i, s := range h.scs {
-		ss[i] = fmt.Sprint(raw.ScalarLimbs(s))
+		ss[i] = raw.ScalarSnap(s)
 	}
 	return ps, ss
 }
@@ -278,7 +277,7 @@ func (h *history) step() {
 			}
 			desc = fmt.Sprintf("s%d = scalar-op(s%d,s%d)", d, si, sj)
 			producing = false
-			ssBefore[d] = fmt.Sprint(raw.ScalarLimbs(h.scs[d]))
+			ssBefore[d] = raw.ScalarSnap(h.scs[d])
 			kb := ref.IntToLE32(h.msc[d])
 			if string(h.scs[d].Bytes()) != string(kb[:]) {
 				panic("scalar operation result differs from the model")
@@ -379,8 +378,7 @@ func (h *history) step() {
 		psBefore[dst] = ""
 	} else if producing && failed && !fresh {
 		// failed setter: receiver untouched (raw)
-		b := raw.PointBytes(recv)
-		if string(b[:]) != psBefore[dst] {
+		if raw.PointSnap(recv) != psBefore[dst] {
 			c.Fail("failed setter changed the receiver", h.det(nil))
 		}
 	}
